@@ -23,6 +23,20 @@ import (
 )
 
 const allocLimit = 256 << 20 // bytes allocated by one decode call: more is a violation
+const decodeTimeout = 6 * time.Second
+
+// crashes, hangs, giant allocations and panics seen so far in the malformed stream; after
+// severeCap of them the stream is cut short (each costs seconds, and 20 replays are kept at most)
+var severe = 0
+
+const severeCap = 8
+
+func noteSevere(msg string) {
+	if strings.Contains(msg, "does not terminate") || strings.Contains(msg, "allocates ") ||
+		strings.Contains(msg, "crashes the process") || strings.Contains(msg, "panic") {
+		severe++
+	}
+}
 
 // replay inputs
 type encIn struct {
@@ -86,7 +100,7 @@ func decodeGuarded(rt reflect.Type, b []byte) *decObs {
 	}()
 	select {
 	case <-done:
-	case <-time.After(20 * time.Second):
+	case <-time.After(decodeTimeout):
 		return &decObs{timeout: true}
 	}
 	return o
@@ -679,6 +693,88 @@ func hostile(r *rand.Rand) []byte {
 	return b
 }
 
+// nested hostile headers: 1-3 long-form LIST headers, each claiming from "one more than is
+// there" up to 2^63-1 / 2^64-1, around a long-form STRING header claiming likewise; the
+// string must be refused on its byte budget (the input length), whatever the lists claim
+func nestedHostile(r *rand.Rand) []byte {
+	be := func(v uint64, n int) []byte {
+		s := make([]byte, n)
+		for i := n - 1; i >= 0; i-- {
+			s[i] = byte(v)
+			v >>= 8
+		}
+		return s
+	}
+	tail := make([]byte, r.Intn(40))
+	r.Read(tail)
+	claim := func(remaining int) (uint64, int) {
+		var v uint64
+		switch r.Intn(10) {
+		case 0:
+			v = uint64(remaining + 1)
+		case 1:
+			v = uint64(remaining + 1 + r.Intn(300))
+		case 2:
+			v = 1000001
+		case 3:
+			v = 1 << 31
+		case 4:
+			v = 1 << 35
+		case 5:
+			v = 1 << 62
+		case 6:
+			v = 1<<63 - 1
+		case 7:
+			v = ^uint64(0)
+		case 8:
+			v = uint64(remaining) // exactly what is there
+		default:
+			v = r.Uint64() >> uint(r.Intn(64))
+		}
+		n := 1
+		for x := v; x > 0xff; x >>= 8 {
+			n++
+		}
+		if n < 8 && r.Intn(3) == 0 {
+			n += r.Intn(8 - n + 1) // leading zero size bytes
+		}
+		return v, n
+	}
+	v, n := claim(len(tail))
+	b := append(append([]byte{0xb7 + byte(n)}, be(v, n)...), tail...)
+	if r.Intn(4) == 0 { // a first, honest item before the hostile string
+		b = append([]byte{byte(r.Intn(0x80))}, b...)
+	}
+	for d := 1 + r.Intn(3); d > 0; d-- {
+		v, n := claim(len(b))
+		b = append(append([]byte{0xf7 + byte(n)}, be(v, n)...), b...)
+	}
+	return b
+}
+
+// targets with a list at depth >= 1 (slice/array/struct/map, possibly behind pointers)
+var listTargets []target
+
+func init() {
+	for _, t := range targets {
+		rt := t.rt
+		for rt.Kind() == reflect.Ptr {
+			rt = rt.Elem()
+		}
+		if _, custom := customs[rt]; custom {
+			continue
+		}
+		switch rt.Kind() {
+		case reflect.Struct, reflect.Map:
+			listTargets = append(listTargets, t)
+		case reflect.Slice, reflect.Array:
+			if !isByte(rt.Elem()) {
+				listTargets = append(listTargets, t)
+			}
+		}
+	}
+}
+
 func randomBytes(r *rand.Rand) []byte {
 	n := []int{0, 1, 1, 2, 2, 3, 4, 5, 8, 12, 20, 60}[r.Intn(12)]
 	b := make([]byte, n)
@@ -797,10 +893,20 @@ func emitDec(c *hxlib.Ctx, kind string, t target, b []byte) bool {
 				Input:      map[string]interface{}{"t": "dec", "v": decIn{t.name, hex.EncodeToString(b)}},
 				Nontrivial: true, OracleErr: fmt.Sprintf("decoding %s into %s: ", trunc(b), t.name) + crashMsg})
 		}
+		severe++
 		return false
 	}
 	announce(key)
+	if len(crashers) > 0 && !scanning && dies("dec", t.name, hex.EncodeToString(b)) {
+		// something already killed the scanning child: probe every further input in isolation
+		c.Emit(hxlib.Case{Kind: kind + "/crash", Key: key,
+			Input:      map[string]interface{}{"t": "dec", "v": decIn{t.name, hex.EncodeToString(b)}},
+			Nontrivial: true, OracleErr: fmt.Sprintf("decoding %s into %s: ", trunc(b), t.name) + crashMsg})
+		severe++
+		return false
+	}
 	coq, msg, acc := oracleDec(t, b, !c.OracleOnly)
+	noteSevere(msg)
 	if acc {
 		kind += "/accepted"
 	} else {
@@ -897,6 +1003,10 @@ func gen(c *hxlib.Ctx) {
 	pick := func() target { return targets[r.Intn(len(targets))] }
 	nMal := c.N(5000)
 	for i := 0; i < nMal; i++ {
+		if severe >= severeCap {
+			c.Note("malformed stream cut after %d of %d inputs: %d crashes/hangs/giant allocations/panics", i, nMal, severe)
+			break
+		}
 		s := seeds[r.Intn(len(seeds))]
 		t := s.t
 		if r.Intn(6) == 0 { // another type than the one the bytes were made for
@@ -933,12 +1043,16 @@ func gen(c *hxlib.Ctx) {
 		case x < 74:
 			kind = "truncated"
 			b = s.b[:r.Intn(len(s.b))]
-		case x < 84:
+		case x < 80:
 			kind = "hostile-size"
 			b = hostile(r)
 			if r.Intn(2) == 0 {
 				t = pick()
 			}
+		case x < 84:
+			kind = "nested-hostile-size"
+			b = nestedHostile(r)
+			t = listTargets[r.Intn(len(listTargets))]
 		case x < 87:
 			kind = "valid-other-type"
 			t = pick()
